@@ -157,6 +157,13 @@ def edge_edits(draw, spec):
             cands.append((p["spend"], EDGE_KINDS, [10.0, 100.0]))
             if p.get("cap"):
                 cands.append((p["cap"], ["zero-const", "one"], [1.0, 10.0]))
+            if not p.get("sat"):
+                p["sat_new"] = {}
+            cands.append((p.get("sat") or p["sat_new"], ["near-bound"], None))
+    for q in sorted(data["q"]):
+        if q in pars and not pars[q].get("timed") and pars[q].get("fmt") != "duration" and (pars[q].get("max") is not None or pars[q].get("min") is not None):
+            for pop in sorted(data["q"][q]):
+                cands.append((data["q"][q][pop], ["near-limit:%r:%r" % (pars[q].get("min"), pars[q].get("max"))], None))
     if not cands:
         return []
     done = []
@@ -164,7 +171,22 @@ def edge_edits(draw, spec):
         d, kinds, sig = cands[i]
         kind = draw(st.sampled_from(kinds))
         v = _vals(d)
-        if kind == "sign-change":
+        if kind == "near-bound":
+            # a saturation whose sigma is large relative to the distance to 0 or 1: pristine code perturbs it like anything else
+            val, sg = draw(st.sampled_from([(0.95, 0.1), (0.05, 0.1), (1.0, 0.2)]))
+            for k in ("a", "t", "v"):
+                d.pop(k, None)
+            d["t"], d["v"], d["s"] = [float(spec["progs"]["years"][0])], [val], sg
+        elif kind.startswith("near-limit"):
+            lo, hi = [None if x == "None" else float(x) for x in kind.split(":")[1:]]
+            bound = hi if hi is not None else lo
+            width = abs(bound) if bound else 1.0
+            for k in ("a", "t", "v"):
+                d.pop(k, None)
+            d["a"] = bound - 0.05 * width if hi is not None else bound + 0.05 * width
+            d["s"] = 0.1 * width
+            kind = "near-limit"
+        elif kind == "sign-change":
             scale = max([abs(x) for x in v] or [0.0])
             d["s"] = 2.0 * scale if scale > 0 else draw(st.sampled_from(sig))
         else:
@@ -176,6 +198,10 @@ def edge_edits(draw, spec):
                 d["a"] = 0.0 if kind == "zero-const" else 1.0
             d["s"] = draw(st.sampled_from(sig))
         done.append(kind)
+    for p in (spec.get("progs") or {}).get("progs", []):
+        new_sat = p.pop("sat_new", None)
+        if new_sat:
+            p["sat"] = new_sat
     if spec.get("progs") and spec["progs"]["covouts"] and draw(st.booleans()):
         c = spec["progs"]["covouts"][draw(st.integers(0, len(spec["progs"]["covouts"]) - 1))]
         k = sorted(c["progs"])[0]
@@ -308,7 +334,8 @@ def spec_unc(spec):
     """uncertainty actually present in a spec: (parset_positive, progset_positive, any_zero, positive on an effective parset entry)"""
     ppos = pz = gpos = False
     eff_par = any(eff and (d.get("s") or 0) > 0 for _, d, _, eff in spec_entries(spec))
-    eff_par = eff_par or any((d.get("s") or 0) > 0 for d, _ in init_entries(spec))  # initial size of an ordinary compartment = value + delta
+    eff_init = any((d.get("s") or 0) > 0 for d, _ in init_entries(spec))  # initial size of an ordinary compartment = value + delta
+    eff_par = (eff_par, eff_init)
     data = spec["data"]
     ds = [d for bypop in data["q"].values() for d in bypop.values()] + [e for tr in data.get("tr") or [] for e in tr["e"].values()]
     ds += [e for w in (data.get("iw") or {}).values() for e in w.values() if isinstance(e, dict)]
@@ -375,10 +402,17 @@ def materialise(src):
         explicit = bool(spec.get("progs")) and any(c.get("imp") for c in spec["progs"]["covouts"])
         explicit_sigma = bool(spec.get("progs")) and any(c.get("imp") and c.get("sigma", 0.0) is not None for c in spec["progs"]["covouts"])
         big_init = any((d.get("s") or 0) > 0.5 * max(v, 1e-300) for d, v in init_entries(spec))
-        return {"P": b["P"], "ps": b["ps"], "pg": b["progset"], "ins": b["instructions"], "ppos": ppos, "gpos": gpos, "zero": zero, "explicit": explicit, "explicit_sigma": explicit_sigma, "eff_par": eff_par, "init": big_init, "edge": bool(spec.get("c17_edge"))}
+        return {"P": b["P"], "ps": b["ps"], "pg": b["progset"], "ins": b["instructions"], "ppos": ppos, "gpos": gpos, "zero": zero, "explicit": explicit, "explicit_sigma": explicit_sigma, "eff_par": eff_par[0] or eff_par[1], "eff_par_strict": eff_par[0], "init": big_init, "edge": bool(spec.get("c17_edge"))}
     P = _lib(src["name"])
     ps = P.parsets[0]
-    ppos = gpos = zero = explicit = explicit_sigma = eff_par = False
+    ppos = gpos = zero = explicit = explicit_sigma = eff_par = eff_init = False
+    if src.get("noise"):
+        # one multiplicative noise term on the first function parameter of the library framework (a stochastic model)
+        fn = P.framework.pars["function"]
+        for name in fn.index:
+            if isinstance(fn[name], str) and fn[name].strip() and "POP_" not in fn[name] and ":" not in fn[name]:
+                P.framework.pars.at[name, "function"] = "(%s)*(1+0.1*randn())" % fn[name]
+                break
     targeted = set(c.par for c in P.progsets[0].covouts.values()) if src.get("progs") else set()
     fpars = set(P.framework.pars.index)
     cands = [(par.name, pop) for par in ps.all_pars() if par.name in fpars for pop, ts in par.ts.items() if ts.has_data]
@@ -419,10 +453,15 @@ def materialise(src):
         others = [float(ps.pars[n2].ts[p2].vals[0]) for n2, p2 in icands if p2 == pop and n2 != name] + [0.0]
         gap = min(abs(v - o) for o in others if o != v) if any(o != v for o in others) else max(abs(v), 1.0)
         ts.sigma = gap / float(z)
-        ppos = eff_par = big_init = True  # the stored initial value of the quantity is value + delta
+        ppos = eff_init = big_init = True  # the stored initial value of the quantity is value + delta
     pg = ins = None
     if src.get("progs"):
         pg = P.progsets[0]
+        for i, attr, value, sigma in src.get("prog_set", []):  # enter a (bounded) program input with its uncertainty, e.g. saturation 0.95 +- 0.1
+            names0 = sorted(pg.programs.keys())
+            ts = getattr(pg.programs[names0[i % len(names0)]], attr)
+            ts.t, ts.vals, ts.assumption, ts.sigma = [float(pg.tvec[0])], [float(value)], None, float(sigma)
+            gpos = edge = True
         ins = at.ProgramInstructions(start_year=float(P.settings.sim_start) + float(src.get("start_off", 1)))
         names = sorted(pg.programs.keys())
         for i, attr, s in src.get("prog", []):
@@ -445,7 +484,7 @@ def materialise(src):
             pg.covouts[key] = at.Covout(par=old.par, pop=old.pop, progs=dict(old.progs), cov_interaction=old.cov_interaction, imp_interaction=imps, uncertainty=sigma, baseline=old.baseline)
             if sigma is not None:
                 gpos, zero = (gpos or sigma > 0), (zero or sigma == 0)
-    return {"P": P, "ps": ps, "pg": pg, "ins": ins, "ppos": ppos, "gpos": gpos, "zero": zero, "explicit": explicit, "explicit_sigma": explicit_sigma, "eff_par": eff_par, "init": big_init, "edge": edge}
+    return {"P": P, "ps": ps, "pg": pg, "ins": ins, "ppos": ppos, "gpos": gpos, "zero": zero, "explicit": explicit, "explicit_sigma": explicit_sigma, "eff_par": eff_par or eff_init, "eff_par_strict": eff_par, "init": big_init, "edge": edge}
 
 
 def quantity_values(ps, pg, parameters=None):
@@ -495,6 +534,41 @@ def quantity_values(ps, pg, parameters=None):
     return out
 
 
+def is_stochastic(framework):
+    """a parameter function of the framework calls rand() / randn()"""
+    import re
+
+    return any(isinstance(f, str) and re.search(r"\brandn?\s*\(", f) for f in framework.pars["function"])
+
+
+def add_noise_parameter(spec, ref):
+    """make the framework stochastic: one output-only parameter = ref * (1 + 0.1*randn())"""
+    d = dict(_P)
+    d.update(name="kz", fmt=None, fn="%s*(1+0.1*randn())" % ref, db=False)
+    spec["pars"].append(d)
+    spec["labels"] = list(spec.get("labels", [])) + ["stochastic-framework"]
+
+
+def data_parameter_digest(res):
+    """digest of the stored values of every parameter that is a pure function of the sampled inputs: no framework function and not
+    overwritten by a program (interpolated databook value x calibration factors, clipped to its limits)"""
+    import hashlib
+
+    fw = res.model.framework
+    fn = fw.pars["function"]
+    pg = res.model.progset
+    targeted = set(pg.covouts.keys()) if pg is not None else set()
+    h = hashlib.sha1()
+    for pop in res.model.pops:
+        for par in pop.pars:
+            f = fn[par.name] if par.name in fn.index else None
+            if (isinstance(f, str) and f.strip()) or (par.name, pop.name) in targeted:
+                continue
+            h.update(repr((pop.name, par.name)).encode())
+            h.update(np.ascontiguousarray(np.asarray(par.vals, dtype=float)).tobytes())
+    return h.hexdigest()
+
+
 def progset_inputs_digest(pg):
     """digest of everything ProgramSet.sample() may perturb (values only, no flags)"""
     import hashlib
@@ -524,6 +598,9 @@ def lib_sources(draw, unc):
         src["edge"] = [[i, draw(st.sampled_from(EDGE_KINDS)), draw(st.sampled_from([0.05, 0.2]))] for i in draw(st.lists(st.integers(0, 5), min_size=1, max_size=2, unique=True))]
         unc = draw(st.sampled_from(["par", "both"]))
         progs = src["progs"] = progs or unc == "both"
+        if progs and draw(st.booleans()):
+            val, sg = draw(st.sampled_from([(0.95, 0.1), (0.05, 0.1), (1.0, 0.2)]))
+            src["prog_set"] = [[draw(st.integers(0, 3)), "saturation", val, sg]]
     low = [None, 0.0] if unc != "none" else [None]
     sig = st.sampled_from(RELS).map(lambda r: {"rel": r})
     npar = 6
